@@ -5,14 +5,14 @@ NODEF = ["--no-default-checks", "--no-assertion-reach-checks"]          # functi
 STUB = ["-Z", "stubbing"]
 
 CRATES = {
-    "core": {},
-    "bmi2": {"rustflags": "--cfg target_feature=\"bmi2\" -Aexplicit_builtin_cfgs_in_flags"},
-    "engine": {},
+    "core": {"setup_harness": "proofs::c18::c18_count"},
+    "bmi2": {"rustflags": "--cfg target_feature=\"bmi2\" -Aexplicit_builtin_cfgs_in_flags", "setup_harness": "proofs::c18_bmi2::c18_bmi2_nth"},
+    "engine": {"setup_harness": "proofs::c16::c16_move_roundtrip"},
 }
 
 PROPS = {}
 NOT_APPLICABLE = {}
-HOOK_COMMITS = []
+HOOK_COMMITS = ["f557953", "95d4aac", "0dd5fab", "0711d5a"]
 
 PROPS["C18"] = {
     "title": "Bitboards behave as sets of squares",
@@ -106,6 +106,39 @@ PROPS["C09"] = {
                   "Tables are also compared with the generator's per-square functions.",
     "level_note": "Complete in the domain for the table-vs-definition clause. Generator agreement covers the six per-square generator functions; between()/line() generators are not encoded (stated).",
     "design_ref": "DESIGN.md section 4 L0/C09",
+}
+
+PROPS["C20"] = {
+    "title": "Per-thread tracing override is isolated from other threads",
+    "groups": [{"crate": "engine", "module": "c20", "timeout_q": 600, "timeout_t": 3000}],
+    "functions": ["tracing_enabled::{enable,disable,toggle,local_enable,local_disable,local_toggle,local_take,restore,is_enabled}"],
+    "bounds_quick": "two threads, sequentialised at operation granularity; every schedule of 4 operations (thread x 9 operations per step, symbolic) from the initial state; "
+                    "PLUS a one-step induction from every state (global flag x 3x3 overrides) x every (thread, operation), which extends the claim to schedules of any length; take/restore round trip with 2+2 arbitrary surrounding operations",
+    "bounds_thorough": "as quick, plus every schedule of 8 operations",
+    "outside": "real OS threads and the memory model: the shared state is ONE AtomicBool accessed once per operation (Release store / fetch_xor / Acquire load), so per-location coherence makes operation-granularity interleaving complete; "
+               "that std's thread_local! gives each thread its own cell is assumed (that is what the hook replaces); GlobalEnable's Layer impl (calls is_enabled)",
+    "stubs": ["hook (cfg rustyyato_chess_verif): thread_local! LOCAL_ENABLED replaced by a two-slot cell array; the harness selects the current slot before each call"],
+    "assumptions": ["sequential consistency of a single atomic location", "std thread_local! isolation between threads"],
+    "level_text": "All ten functions of tracing-enabled are executed symbolically, unmodified, on behalf of two sequentialised threads; after every step of a symbolic schedule each thread's real is_enabled() "
+                  "is compared with a tri-state model, the other thread's override is shown untouched, and take..restore returns the saved override. A one-step query from every state makes the result independent of schedule length.",
+    "level_note": "Threads are sequentialised at operation granularity (Kani has no threads); the thread-local is replaced by a hook-selected slot. Real preemption inside an operation is not executed: each operation accesses the one shared atomic at most once.",
+    "design_ref": "DESIGN.md section 4 C20",
+}
+
+PROPS["C04"] = {
+    "title": "Position hash is a pure function of the position",
+    "groups": [{"crate": "core", "module": "c04", "timeout_q": 900, "timeout_t": 3000}],
+    "functions": ["chess_lookup::{zobrist,castle_rights_zobrist,en_passant_zobrist,turn_zobrist} over the real key tables",
+                  "chess_movegen::Board::{zobrist,standard}, PartialEq/Hash for Board, BoardBuilder::{place,remove}",
+                  "make-move and parser parts of the invariant: see C02/C03 (c02 harnesses assert piece_hash == spec) and C05/C06"],
+    "bounds": "none beyond the types: two symbolic key indices over all 794 keys (all pairs in one query); placements = arbitrary well-formed 8-bitboard partitions (not only valid chess positions); 64-square xor loop fully unwound",
+    "outside": "collision-freeness of the XOR of several keys (not claimed by the property); the engine's repetition table keyed on the hash (C15)",
+    "stubs": [],
+    "assumptions": ["the invariant piece_hash == XOR of piece keys is an inductive invariant: base = standard()/empty builder/parser (C05/C06 harness), steps = place/remove (here) and make-move (C02/C03 harness)"],
+    "level_text": "Key distinctness/non-zero is decided for all 794x793 pairs by one query over the real tables. The hash invariant is shown inductive (one symbolic step of place/remove from an arbitrary placement; make-move and parser steps in C02/C05), "
+                  "and Eq/Hash agreement is decided for two symbolic boards: equal boards hash equal regardless of cached data and clocks, a difference in exactly one of turn/rights/en-passant changes the hash, and Hash feeds exactly one u64 (zobrist()).",
+    "level_note": "Transposition independence follows from the invariant (the hash is a function of the fields), not from exploring move sequences.",
+    "design_ref": "DESIGN.md section 4 C04",
 }
 
 PROPS["LEM"] = {"title": "internal: F-level stubs == S-level geometry", "claimed": False,
